@@ -24,10 +24,12 @@ VARIANTS = ["ds_full", "ds_eigh", "ds_quant_pmap", "ds_comp", "ds_comp_neg", "ds
             # un-jitted (eager) updates: Python-side hidden state would act at every call, not only at trace time
             "sm3_eager", "ds_sched_eager", "tf_shampoo_eager",
             # frequent directions with gradient averaging (window 1 and 2), multi-block sharded layout
-            "ds_fd_avg1", "ds_fd_avg2", "ds_sharded_blocks"]
+            "ds_fd_avg1", "ds_fd_avg2", "ds_sharded_blocks",
+            # FD diagnostics next to a parameter that skips preconditioning; bfloat16 parameters with int8/int16 state
+            "ds_fd_metrics", "ds_quant_pmap_bf16"]
 RULE = ("crash-point enumeration: for each optimizer variant in {distributed_shampoo full / eigh / pmap int16-quantised / compressed +1 / compressed -1 / "
         "FD sketch / RMSProp graft + lr schedule + scheduled statistics / sharded 2-device, sm3 (int8 momentum) with and without momentum, Tearfree Shampoo / "
-        "Sketchy / Shampoo+RMSProp graft, AdaGrad graft, un-jitted (eager) sm3 / scheduled distributed_shampoo / Tearfree Shampoo, FD with gradient averaging (window 1, 2), sharded with multi-block parameters} x 2 seeds (thorough 6) EVERY interruption point k in 0..T (T=6, thorough 10) is "
+        "Sketchy / Shampoo+RMSProp graft, AdaGrad graft, un-jitted (eager) sm3 / scheduled distributed_shampoo / Tearfree Shampoo, FD with gradient averaging (window 1, 2), sharded with multi-block parameters, FD diagnostics with a skipped parameter, bfloat16 parameters with quantised state} x 2 seeds (thorough 6) EVERY interruption point k in 0..T (T=6, thorough 10) is "
         "resumed in a fresh interpreter.  evaluations = (variant, seed, k) resumes; non-trivial when 0<k<T (state has history and steps remain); distinct by (variant, seed, k)")
 ASSUMPTIONS = ["serialization = flax.serialization.to_bytes / from_bytes into the state produced by init() of a freshly constructed optimizer",
                "for pmap variants the per-device state (device 0) is serialized and re-replicated",
@@ -72,6 +74,11 @@ def make(variant):
     return H.make_opt(dict(base, eigh=True, graft_type=2), "jit"), "plain"
   if variant == "ds_quant_pmap":
     return H.make_opt(base, "pmapq", 1), "pmap"
+  if variant == "ds_quant_pmap_bf16":
+    return H.make_opt(dict(base, beta1=0.9), "pmapq", 1), "pmap"
+  if variant == "ds_fd_metrics":
+    return H.make_opt(dict(base, compression_rank=1, block_size=8, frequent_directions=True, reuse_preconditioner=True, generate_fd_metrics=True,
+                           skip_preconditioning_rank_lt=2), "jit"), "plain"
   if variant == "ds_comp":
     return H.make_opt(dict(base, compression_rank=1, block_size=8), "jit"), "plain"
   if variant == "ds_comp_neg":
@@ -130,7 +137,8 @@ class Stepper:
     jax, jnp = self.jax, self.jnp
     import contextlib
     import io
-    self.params = {k: jnp.asarray(v) for k, v in params.items()}
+    self.dtype = jnp.bfloat16 if self.variant.endswith("_bf16") else jnp.float32
+    self.params = {k: jnp.asarray(v, self.dtype) for k, v in params.items()}
     with contextlib.redirect_stdout(io.StringIO()):
       if self.mode == "sharded":
         from jax.sharding import Mesh
@@ -152,7 +160,7 @@ class Stepper:
     jax, jnp = self.jax, self.jnp
     import contextlib
     import io
-    g = {k: jnp.asarray(v) for k, v in g.items()}
+    g = {k: jnp.asarray(v, self.dtype) for k, v in g.items()}
     with contextlib.redirect_stdout(io.StringIO()):
       if self.mode == "pmap":
         u, st2 = self._f(jax.tree.map(lambda x: x[None], g), jax.tree.map(lambda x: x[None], st))
@@ -162,7 +170,8 @@ class Stepper:
           u, st2 = self._f(g, st, self.params)
       else:
         u, st2 = self._f(g, st, self.params)
-    return {k: np.asarray(v) for k, v in u.items()}, st2
+    # (bfloat16 -> float32 is exact, and NumPy's npz format cannot hold bfloat16)
+    return {k: np.asarray(v.astype(jnp.float32) if v.dtype == jnp.bfloat16 else v) for k, v in u.items()}, st2
 
 
 def sig(tree):
@@ -195,9 +204,14 @@ def child_main(workdir, variant, rseed, T, k):
   import jax
   import jax.numpy as jnp
   st = jax.tree.map(jnp.asarray, st)
-  out = {"struct_ok": sig(st) == sig(template), "sig_detail": ""}
+  a, b = sig(st), sig(template)
+  if variant.endswith("_bf16"):
+    # with bfloat16 parameters every optimizer of the repository (and optax.trace) promotes its momentum buffers to float32 in the
+    # first update, so the state after k >= 1 steps legitimately differs from init()'s template in dtype (parameter dtypes are not
+    # in C07's quantifier); structure and shapes must still agree, and the continuation must still be bit-identical
+    a, b = (a[0], [x[0] for x in a[1]]), (b[0], [x[0] for x in b[1]])
+  out = {"struct_ok": a == b, "sig_detail": ""}
   if not out["struct_ok"]:
-    a, b = sig(st), sig(template)
     out["sig_detail"] = "treedef equal: %s; first differing leaf: %s" % (a[0] == b[0], next(((i, x, y) for i, (x, y) in enumerate(zip(a[1], b[1])) if x != y), None))
   ups = {}
   for t in range(k, T):
